@@ -42,10 +42,12 @@ fn one<T: El>(tr: &mut Trace, rng: &mut Rng, nx: usize, ny: usize, cx: &str, cy:
     } else {
         gen::data::<T>(rng, &shape, gen::DATA_CLASSES[0])
     };
-    let (store, dlay, xlay, ylay) = match rng.below(6) {
-        0 => (Store::View, *rng.pick(&[Lay::Rev, Lay::Perm, Lay::Strided, Lay::F]), Lay::Strided, Lay::Rev),
-        1 => (Store::Owned, *rng.pick(&[Lay::F, Lay::Perm]), Lay::C, Lay::C),
-        _ => (Store::Owned, Lay::C, Lay::C, Lay::C),
+    let (store, dlay, xlay) = gen::next_layout();
+    // the y axis takes the "other" non-standard layout
+    let ylay = match xlay {
+        Lay::C => Lay::C,
+        Lay::Rev => Lay::Strided,
+        _ => Lay::Rev,
     };
     let dr = real(&data, dlay);
     let xr = real1(&x, xlay);
